@@ -199,7 +199,10 @@ pub fn check(s: &Scn, what: &str) -> Option<(String, String)> {
     }
     if what == "c05" && six_dof && s.limits.is_none() {
         let q5m = s.q[4] * s.p.sign_corrections[4] as f64 - s.p.offsets[4];
-        if q5m == 0.0 && s.prev == s.q && regular_arm(&s.p, &s.q) && s.p.sign_corrections[3] == s.p.sign_corrections[5] {
+        // previous realises the pose: equal to q, or J4 / J6 re-split with J4 + J6 kept modulo 2*pi (J4, J6 share the sign correction)
+        let same_pose = (0..6).all(|i| i == 3 || i == 5 || s.prev[i] == s.q[i])
+            && ang_diff(s.prev[3] + s.prev[5], s.q[3] + s.q[5]) < 1e-9;
+        if q5m == 0.0 && same_pose && regular_arm(&s.p, &s.q) && s.p.sign_corrections[3] == s.p.sign_corrections[5] {
             // (robots whose J4 and J6 sign corrections differ: known finding F15, the recovery adds J4 + J6 in user space)
             // exactly singular (J5 = 0), previous realises the pose: the first continuation answer is the previous joints
             let sols = &entries[1].1;
@@ -212,6 +215,22 @@ pub fn check(s: &Scn, what: &str) -> Option<(String, String)> {
             let x = &sols[0];
             if !(0..6).all(|i| (x[i] - s.prev[i]).abs() < 1e-3) {
                 return Some((format!("first continuation answer {:?} differs from the previous joints {:?}", x, s.prev), "first answer == previous (J4/J6 must not jump)".into()));
+            }
+        }
+    }
+    if what == "c05" && six_dof && s.limits.is_none() {
+        let q5m = s.q[4] * s.p.sign_corrections[4] as f64 - s.p.offsets[4];
+        let same_arm = (0..5).all(|i| i == 3 || s.prev[i] == s.q[i]);
+        let resplit = ang_diff(s.prev[3] + s.prev[5], s.q[3] + s.q[5]) >= 1e-9;
+        if q5m == 0.0 && same_arm && resplit && regular_arm(&s.p, &s.q) && s.p.sign_corrections[3] == s.p.sign_corrections[5] {
+            // statement: "in general the J4 and J6 of the recovered answer move by the same amount from their previous values"
+            let arms: Vec<&Joints> = entries[0].1.iter().filter(|x| r.kinematic_singularity(x).is_some()).collect();
+            let one_arm = !arms.is_empty() && arms.iter().all(|x| (0..3).all(|i| ang_diff(x[i], s.q[i]) < 1e-3));
+            if one_arm {
+                let sols = &entries[1].1;
+                let ok = sols.iter().any(|x| (0..3).all(|i| (x[i] - s.prev[i]).abs() < 1e-3)
+                    && ((x[3] - s.prev[3]) - (x[5] - s.prev[5])).abs() < 1e-6 && (x[3] - s.prev[3]).abs() <= PI / 2.0 + 1e-6);
+                if !ok { return Some((format!("no continuation answer on the arm of previous {:?} moves J4 and J6 by the same amount (answers: {:?})", s.prev, sols), "the recovered answer moves J4 and J6 equally, by at most a quarter turn".into())); }
             }
         }
     }
@@ -258,6 +277,18 @@ fn gen(rng: &mut Rng, what: &str, round: usize) -> Scn {
             q[3] = rng.range(-PI, PI); q[5] = rng.range(-PI, PI);
             if round % 4 == 0 { let t = if round % 8 == 0 { 0.0 } else { rng.range(-0.2, 0.2) }; q[5] = PI * (if rng.below(2) == 0 { 1.0 } else { -1.0 }) - q[3] + t; }
             prev = q;
+            if round % 6 == 4 {
+                // previous realises the same pose with J4 / J6 split differently and written with extra whole turns (all
+                // inside the documented +-2*pi range): J4 + d + 2*pi*k4, J6 - d + 2*pi*k6 keeps J4 + J6 modulo 2*pi
+                let d = rng.range(-1.0, 1.0);
+                let a = prev[3] + d + TWO_PI * (rng.below(3) as f64 - 1.0);
+                let b = prev[5] - d + TWO_PI * (rng.below(3) as f64 - 1.0);
+                if a.abs() <= TWO_PI && b.abs() <= TWO_PI { prev[3] = a; prev[5] = b; }
+            }
+            if round % 6 == 2 {
+                // previous on the same arm and J5 but with another J4 + J6: the recovered answer must move J4 and J6 equally
+                prev[3] += rng.range(-0.5, 0.5); prev[5] += rng.range(-0.5, 0.5);
+            }
         }
         "c05" => {
             let k = rng.below(5) as f64 - 2.0;
